@@ -487,6 +487,8 @@ D_CompleteIsOk == \A i \in XS : Dev(i) \/ ((Clean(i) /\ Done(i) /\ ref[i].comple
 D_NoOverRead   == \A i \in XS : Dev(i) \/ ((Clean(i) /\ stalled[i]) => ref[i].framing = "close")
 D_Persist      == \A i \in XS : Dev(i) \/ ((Clean(i) /\ Ok(i) /\ ~connClosed[i] /\ leftover[i] > 0)
                                             => (i + 1 \in XS /\ Done(i + 1) => fresh[i + 1]))
+D_WholeMessage == \A i \in XS : Dev(i) \/ ((Clean(i) /\ Ok(i) /\ ~connClosed[i] /\ ref[i].framing # "close")
+                                            => Consumed(i) >= Len(ref[i].ibytes) + Len(ref[i].bytes))
 D_RespBytes    == \A i \in XS : Dev(i) \/ ((Clean(i) /\ Ok(i)) => RespOK(i, recorded[i]))
 D_RecBlocks    == \A i \in XS : Dev(i) \/ ((Ok(i) /\ reqRecs[i] = 1 /\ respRecs[i] = 1)
                                             => ((Clean(i) => RespOK(i, respBlock[i])) /\ reqBlock[i] = reqSent[i]))
